@@ -65,7 +65,7 @@ def dependent_required(*groups: Collection[Any], owner: Optional[type] = None): 
     if owner is None:
         return DependentRequiredDescriptor(fields, groups)
     else:
-        dep_req = _dependent_requireds[owner]
+        dep_req = list(_dependent_requireds[owner])
         for field, required in fields.items():
             dep_req.append((field, required))
             check_field_or_name(field)
@@ -75,3 +75,5 @@ def dependent_required(*groups: Collection[Any], owner: Optional[type] = None): 
             for i, field in enumerate(group):
                 check_field_or_name(field)
                 dep_req.append((field, [group[:i], group[i:]]))
+        # reassign (instead of mutating in place) in order to reset the cache
+        _dependent_requireds[owner] = dep_req
